@@ -64,6 +64,27 @@ def ofrOf (cfg : Cfg) (obj : J) : OFR :=
       | none => .nil
       | some f => let v := (f.eval obj).getD .null; .str false (.str v.print) (some v) }
 
+/-- `handleWatchEvent`, jq error on a **Deleted** event ("Delete is always fired"): the event carries a
+bare `&ObjectAndFilterResult{Object: obj}` with `Metadata.JqFilter` / `ResourceId` set and no filter
+result; the `RemoveFullObject()` call that follows covers it like every other result. -/
+def ofrDeletedFallback (cfg : Cfg) (obj : J) : OFR :=
+  { jqSet := cfg.filter.isSome
+    removed := !cfg.keep
+    object := if cfg.keep then some obj else none
+    fr := .nil }
+
+/-- The element of `KubeEvent.Objects` `handleWatchEvent` sends for an object: what `applyFilter`
+stored, or — the filter failed on the object, which only a Deleted event survives — the fallback. -/
+def ofrEvent (cfg : Cfg) (obj : J) : OFR :=
+  match project cfg obj with
+  | none => ofrDeletedFallback cfg obj
+  | some _ => ofrOf cfg obj
+
+/-- Seeded variant (C09-m1): the fallback result is built after the shared "filter + strip" helper, so
+`RemoveFullObject` never sees it. -/
+def ofrDeletedFallbackUnstripped (cfg : Cfg) (obj : J) : OFR :=
+  { jqSet := cfg.filter.isSome, removed := false, object := some obj, fr := .nil }
+
 /-- The unrepaired code stored the `map[string]any` of `jq.ApplyFilter`. -/
 def ofrOfUnrepaired (cfg : Cfg) (obj : J) : OFR :=
   { ofrOf cfg obj with
@@ -241,7 +262,7 @@ def mkCtx : Origin → Ctx
       jqSet := b.cfg.filter.isSome, includeSnapshots := b.inc, group := b.group }
   | .kubeEvent b we obj =>
     { btype := .kubernetes, binding := b.name, type := "Event", watchEvent := we.toString,
-      objects := [ofrOf b.cfg obj],
+      objects := [ofrEvent b.cfg obj],
       jqSet := b.cfg.filter.isSome, includeSnapshots := b.inc, group := b.group }
 
 /-- `getIncludeSnapshotsFrom(bindingType, bindingName)`: the first binding of that type with the name. -/
